@@ -834,6 +834,8 @@ public:
     subtotal_posts::flush();
   }
 
+  virtual void operator()(post_t& post);
+
   virtual void clear() {
     last_post = NULL;
     subtotal_posts::clear();
